@@ -229,7 +229,7 @@ func checkC11(p *Prog, r *Report) {
 		helper folded in twice gives two). */
 		var hands []queueSend
 		for _, s := range sendsIn(pout) {
-			if fv, _ := loadedField(s.Chan); fv == och {
+			if fv, _ := loadedField(p.resolveUp(s.Chan)); fv == och {
 				if b, ok := constBool(litFields(s.Val)["Plain"]); nil != litFields(s.Val)["Plain"] && ok && b {
 					hands = append(hands, s)
 				}
